@@ -102,6 +102,10 @@ inductive Op where
   | setChar (i j : Int) (c : Byte)
   | trimSeqs (n : Int) (fromStart : Bool)
   | autoAlpha
+  | revcomp
+  | replaceChar (name : String) (site : Int) (c : Byte)
+  | rmGapSites (num den : Nat) (ends : Bool)
+  | compress
 deriving Repr
 
 /-- the float threshold test of the cleaning functions: `cutoff = num/den` as `float64` -/
@@ -115,6 +119,13 @@ reset it, unlike what its comment says; cutoffs outside [0,1] are outside the pr
 def cutoffTestRaw (num den : Nat) (nb total : Nat) : Bool :=
   let c := Float.ofNat num / Float.ofNat den
   (c > 0 && Float.ofNat nb ≥ c * Float.ofNat total) || (c == 0 && nb > 0)
+
+/-- a list of positions in a status string: `+`-separated, `_` when empty -/
+def plusList (l : List Nat) : String := if l.isEmpty then "_" else "+".intercalate (l.map toString)
+
+/-- status of a site removal: leading and trailing removed runs, kept and removed positions -/
+def sitesStatus (first last : Nat) (kept removed : List Nat) : String :=
+  "ok[" ++ toString first ++ "," ++ toString last ++ "," ++ plusList kept ++ "," ++ plusList removed ++ "]"
 
 /-- one step: new state and a status string (`ok`, `err`, `na`, with op-specific payload) -/
 def stepOp (b : Bag) : Op → Bag × String
@@ -164,6 +175,22 @@ def stepOp (b : Bag) : Op → Bag × String
     | none => (b, "PANIC")
     | some r => (r.1, if r.2 then "err" else "ok")
   | .autoAlpha => ({ b with alphabet := autoAlphabet (b.rows.map (·.seq)) }, "ok")
+  | .revcomp => let r := reverseComplement b; (r.1, if r.2 then "err" else "ok")
+  | .replaceChar name site c =>
+    if !b.isAlign then (b, "na") else
+    match replaceChar name site c b with
+    | none => (b, "PANIC")
+    | some r => (r.1, if r.2 then "err" else "ok")
+  | .rmGapSites num den ends =>
+    if !b.isAlign then (b, "na") else
+    match removeGapSites (cutoffTest num den) ends b with
+    | none => (b, "PANIC")
+    | some r => (r.1, sitesStatus r.2.first r.2.last r.2.kept r.2.removed)
+  | .compress =>
+    if !b.isAlign then (b, "na") else
+    match compressBag b with
+    | none => (b, "PANIC")
+    | some r => (r.1, "ok[" ++ plusList r.2 ++ "]")
 
 /-- run a history, collecting the states after every step -/
 def runOps : Bag → List Op → List (Bag × String)
